@@ -159,7 +159,7 @@ def run_property(prop: str, tier: str, seed: int, jobs: int = 16, only: str = No
     for l in dict.fromkeys(lines):
         print(l)
     wall = time.time() - t0
-    write_evidence(prop, tier, seed, mod, obs, results, new_viol, known_hits, wall)
+    write_evidence(prop, tier, seed, mod, obs, results, new_viol, known_hits, wall, partial=only is not None)
     n_proved = sum(1 for r in results if r["status"] == "proved")
     n_inc = sum(1 for r in results if r["status"] == "inconclusive")
     print(f"{prop} [{tier}] obligations={len(results)} proved={n_proved} inconclusive={n_inc} violated={sum(1 for r in results if r['status']=='violated')} harness-errors={len(harness_err)} known-findings={len(seen)} wall={wall:.1f}s")
@@ -174,7 +174,7 @@ def run_property(prop: str, tier: str, seed: int, jobs: int = 16, only: str = No
     return EXIT_OK
 
 
-def write_evidence(prop, tier, seed, mod, obs, results, new_viol, known_hits, wall):
+def write_evidence(prop, tier, seed, mod, obs, results, new_viol, known_hits, wall, partial=False):
     asserts = [a for r in results for a in r.get("asserts", []) if a.get("index", -1) >= 0]
     twins = [a for r in results for a in r.get("asserts", []) if a.get("index", -1) < 0]
     stats_keys = ("queries", "unsat", "sat", "unknown", "time", "lemma_queries", "lemma_time", "den_queries", "cvc5_queries", "cvc5_disagree", "normalised")
@@ -234,9 +234,16 @@ def write_evidence(prop, tier, seed, mod, obs, results, new_viol, known_hits, wa
         exhaustive=False,
     )
     ev = dict(property_id=prop, tier=tier, seed=int(seed), level="other", coverage=cov, assumptions=list(getattr(mod, "ASSUMPTIONS", [])) + COMMON_ASSUMPTIONS, wall_s=round(wall, 2), violations=int(new_viol))
-    os.makedirs(os.path.join(ROOT, "evidence"), exist_ok=True)
-    with open(os.path.join(ROOT, "evidence", f"{prop}.json"), "w") as f:
+    # evidence/<id>.json describes a complete run of the registered command against /repo's tree; partial runs (--only) and
+    # runs of the tools that apply a seeded change (VERIF_EVIDENCE_DIR) write elsewhere so that they never replace it
+    out_dir = os.environ.get("VERIF_EVIDENCE_DIR") or (os.path.join(ROOT, "work", "evidence_partial") if partial else os.path.join(ROOT, "evidence"))
+    os.makedirs(out_dir, exist_ok=True)
+    with open(os.path.join(out_dir, f"{prop}.json"), "w") as f:
         json.dump(ev, f, indent=1, default=str)
+    if tier == "thorough" and not partial and not os.environ.get("VERIF_EVIDENCE_DIR"):
+        os.makedirs(os.path.join(ROOT, "evidence", "thorough"), exist_ok=True)
+        with open(os.path.join(ROOT, "evidence", "thorough", f"{prop}.json"), "w") as f:
+            json.dump(ev, f, indent=1, default=str)
 
 
 COMMON_ASSUMPTIONS = [
